@@ -377,6 +377,10 @@ func histCases(prop, tier string, seed int64) []core.Case {
 		cases = append(cases, core.Case{ID: "ufs-fid-table", Run: runUfsFidTable})
 		for _, dotu := range []bool{false, true} {
 			dotu := dotu
+			cases = append(cases, core.Case{ID: fmt.Sprintf("cancelled-binding/dotu=%v", dotu), Run: func(ctx *core.Ctx) core.Result { return runCancelledBinding(dotu) }})
+		}
+		for _, dotu := range []bool{false, true} {
+			dotu := dotu
 			cases = append(cases, core.Case{ID: fmt.Sprintf("invalidated-under-a-request/dotu=%v", dotu), Run: func(ctx *core.Ctx) core.Result {
 				return runInvalidatedUnder("C04", dotu)
 			}})
@@ -846,6 +850,148 @@ func runUfsFidTable(ctx *core.Ctx) core.Result {
 			fail("valid-after-clunk", fmt.Sprintf("fid %d answers %s after its Rclunk", S, st.String()))
 		}
 		res.Sig(fmt.Sprintf("ufs-fid-table|%d", round))
+	}
+	return res
+}
+
+// runCancelledBinding: a request that would bind a fid (Twalk to a new fid, Tattach, Tauth) is cancelled while the
+// implementation holds it — by a Tflush the implementation honours (req.Flush()), or by a Tversion — and answers late,
+// into the void. No Rwalk/Rattach/Rauth was ever sent: the fid number is not valid, stays free to be bound, and the
+// fid object shown to the implementation is reported destroyed.
+func runCancelledBinding(dotu bool) core.Result {
+	var res core.Result
+	ver := "9P2000"
+	if dotu {
+		ver = "9P2000.u"
+	}
+	for _, how := range []string{"tflush", "tversion"} {
+		for _, kind := range []string{"walk", "attach", "auth"} {
+			if kind == "auth" && how == "tflush" {
+				continue // (the scripted implementation cannot cancel from inside its authentication callback)
+			}
+			s := NewSess(Config{Dotu: dotu, Msize: 8192, Flush: true, Auth: true})
+			c := s.Dial()
+			if r, err := c.Version(8192, ver, W); err != nil || r.Msg == nil || r.Msg.Type != wire.Rversion {
+				res.Inconclusive = "c04: version failed"
+				return res
+			}
+			tag := uint16(0)
+			rpc := func(m *wire.Msg) *wire.Msg {
+				tag++
+				m.Tag = tag
+				r, err := c.Rpc(m, W)
+				if err != nil || r.Msg == nil {
+					return &wire.Msg{}
+				}
+				return r.Msg
+			}
+			fail := func(sig, msg string) {
+				res.Violate("C04;cancelled-binding;"+kind+";"+how+";"+sig, msg, map[string]interface{}{"dotu": dotu})
+			}
+			if a := rpc(&wire.Msg{Type: wire.Tattach, Fid: 0, Afid: wire.NOFID, Uname: "root", Nuname: 0}); a.Type != wire.Rattach {
+				res.Inconclusive = "c04: attach failed"
+				return res
+			}
+			for round := 0; round < 3 && len(res.Violations) == 0; round++ {
+				N := uint32(40 + round)
+				var m *wire.Msg
+				switch kind {
+				case "walk":
+					m = &wire.Msg{Type: wire.Twalk, Fid: 0, Newfid: N, Wname: []string{"d"}}
+				case "attach":
+					m = &wire.Msg{Type: wire.Tattach, Fid: N, Afid: wire.NOFID, Uname: "root", Nuname: 0, Aname: "second"}
+				case "auth":
+					m = &wire.Msg{Type: wire.Tauth, Afid: N, Uname: "root", Nuname: 0, Aname: "x"}
+				}
+				tag++
+				m.Tag = tag
+				p := script.NewPlan()
+				p.Gate, p.Entered = make(chan struct{}), make(chan struct{})
+				s.Ops.SetPlan(c.ID, m.Tag, p)
+				if kind == "auth" {
+					s.Ops.SetCallbackGate("AuthInit", p.Gate)
+				}
+				s.Ops.SetFlushMode(c.ID, m.Tag, "cancel")
+				seq0 := s.Log.Seq()
+				_ = c.Send(m)
+				entered := false
+				if kind == "auth" {
+					entered = waitFor(W, func() bool {
+						for _, ev := range s.Log.Snapshot(seq0) {
+							if ev.Kind == "blocked" {
+								return true
+							}
+						}
+						return false
+					})
+				} else {
+					select {
+					case <-p.Entered:
+						entered = true
+					case <-time.After(W):
+					}
+				}
+				if !entered {
+					res.Inconclusive = "c04: binding request never reached the implementation"
+					close(p.Gate)
+					return res
+				}
+				res.Evals++
+				switch how {
+				case "tflush":
+					if f := rpc(&wire.Msg{Type: wire.Tflush, Oldtag: m.Tag}); f.Type != wire.Rflush {
+						fail("no-rflush", "Tflush of the held request answered "+f.String())
+					}
+				case "tversion":
+					if r, err := c.Version(8192, ver, W); err != nil || r.Msg == nil || r.Msg.Type != wire.Rversion {
+						fail("no-rversion", "Tversion while the request was held was not answered")
+					}
+				}
+				close(p.Gate) // the late answer
+				c.Quiesce(W)
+				time.Sleep(time.Millisecond)
+				if rp, err := c.WaitTag(m.Tag, 5*time.Millisecond); err == nil && rp != nil && rp.Msg != nil {
+					if how == "tflush" && kind != "auth" {
+						fail("reply-after-cancel", "the cancelled request was answered after all: "+rp.Msg.String())
+					}
+				}
+				// the number was never bound
+				if st := rpc(&wire.Msg{Type: wire.Tstat, Fid: N}); st.Type != wire.Rerror || st.Ename != "unknown fid" {
+					fail("number-valid", fmt.Sprintf("fid %d was named by a cancelled %s only; Tstat on it answers %s", N, kind, st.String()))
+				}
+				if cl := rpc(&wire.Msg{Type: wire.Tclunk, Fid: N}); cl.Type != wire.Rerror {
+					fail("number-clunkable", fmt.Sprintf("Tclunk of the never-bound fid %d answers %s", N, cl.String()))
+				}
+				// … and can be bound
+				if w := rpc(&wire.Msg{Type: wire.Twalk, Fid: 0, Newfid: N}); w.Type != wire.Rwalk {
+					fail("number-not-free", fmt.Sprintf("fid number %d was named by a cancelled %s only; binding it answers %s", N, kind, w.String()))
+				} else {
+					rpc(&wire.Msg{Type: wire.Tclunk, Fid: N})
+				}
+				// every fid object the implementation was shown for the cancelled request has been reported destroyed
+				shown, destroyed := map[int64]bool{}, map[int64]int{}
+				for _, ev := range s.Log.Snapshot(seq0) {
+					if ev.Conn == c.ID && ev.Tag == m.Tag && ev.Kind == "op" {
+						if ev.Newfid != 0 {
+							shown[ev.Newfid] = true
+						}
+						if kind != "walk" && ev.Fid != 0 {
+							shown[ev.Fid] = true
+						}
+					}
+					if ev.Kind == "destroy" {
+						destroyed[ev.Fid]++
+					}
+				}
+				for tok := range shown {
+					if destroyed[tok] != 1 {
+						fail("destroy-count", fmt.Sprintf("the fid object of the cancelled %s was reported destroyed %d times", kind, destroyed[tok]))
+					}
+				}
+				res.Sig(fmt.Sprintf("cancelled-binding|%v|%s|%s", dotu, kind, how))
+			}
+			c.Hangup()
+		}
 	}
 	return res
 }
